@@ -3,8 +3,10 @@
    [locate_f n f] resolves a node identity to its context (ancestors nearest
    first, sibling list, own sub-tree); every q_* query of Nav.v is computed
    from that context the way the Python accessor computes it from pointers. *)
+From Coq Require Import String.
 From Coq Require Import List ZArith Bool Arith.
-From NT Require Import Sx Rose Nav NavProofs NavLaws.
+From NT Require Import Sx Rose Nav NavProofs NavLaws NavSource.
+From NTGen Require Import Generated.
 Import ListNotations.
 
 (* every node of a forest with unique identities has exactly its own context *)
@@ -314,6 +316,47 @@ Theorem C10_next_prev_inverse : forall f n m c cy, NoDup (ids f) -> locate_f n f
   (q_next c = Some (c_self cy) -> q_index cy = option_map S (q_index c) /\ q_parent cy = q_parent c).
 Proof. exact next_prev_inverse. Qed.
 Print Assumptions C10_next_prev_inverse.
+
+(* ================================================================== *)
+(* Source tie: lexical facts lifted from nutree/node.py (Generated.v,   *)
+(* section NAV) agree with what the model computes                       *)
+(* ================================================================== *)
+
+(* get_index / prev_sibling / next_sibling / is_first_sibling / is_last_sibling / get_siblings find the node's
+   position BY IDENTITY (`is self`, directly or through get_index) in self._parent._children; no relationship
+   accessor of node.py compares nodes with ==, !=, in, list.index/.count/.remove, or contains an `==` at all *)
+Theorem C10_source_identity_not_equality : GEN_NAV_OK = true /\ node_identity_ok = true.
+Proof. exact node_identity_holds. Qed.
+Print Assumptions C10_source_identity_not_equality.
+
+(* the literal subscripts of node.py ([0], [-1], [idx - 1], [idx + 1]) are the positions the model reads *)
+Theorem C10_source_subscripts : forall c : ctx,
+  q_first_child c = py_at (rch (c_self c)) (sub_lit "Node.first_child") /\
+  q_last_child c = py_at (rch (c_self c)) (sub_lit "Node.last_child") /\
+  q_first_sibling c = py_at (c_sibs c) (sub_lit "Node.first_sibling") /\
+  q_last_sibling c = py_at (c_sibs c) (sub_lit "Node.last_sibling") /\
+  q_is_first c = match py_at (c_sibs c) (sub_lit "Node.is_first_sibling") with
+                 | Some t => is_self (rid (c_self c)) t | None => false end /\
+  q_is_last c = match py_at (c_sibs c) (sub_lit "Node.is_last_sibling") with
+                | Some t => is_self (rid (c_self c)) t | None => false end /\
+  (forall i, q_index c = Some (S i) -> q_is_first c = false ->
+     q_prev c = py_at (c_sibs c) (Z.of_nat (S i) + sub_var "Node.prev_sibling")) /\
+  (forall i, q_index c = Some i -> q_is_last c = false ->
+     q_next c = py_at (c_sibs c) (Z.of_nat i + sub_var "Node.next_sibling")).
+Proof. exact node_subscripts_agree. Qed.
+Print Assumptions C10_source_subscripts.
+
+(* counters of calc_depth (`depth = 0`, `depth += 1` once per _parent link up to the system root),
+   count_descendants (`i = 0`, `i += 1`), calc_height (`height = 0`, `_ch(self, 0)`, `h + 1`, `h > height`)
+   and the guard of up() (`level < 1`) *)
+Theorem C10_source_counters : forall c : ctx,
+  Z.of_nat (q_depth c) = (NAV_DEPTH_INIT + NAV_DEPTH_STEP * Z.of_nat (S (length (c_anc c))))%Z /\
+  Z.of_nat (q_count_desc c false) = (NAV_COUNT_INIT + NAV_COUNT_STEP * Z.of_nat (length (pre_f (rch (c_self c)))))%Z /\
+  (NAV_HEIGHT_INIT = 0%Z /\ NAV_HEIGHT_START = 0%Z /\ NAV_HEIGHT_STEP = 1%Z /\ NAV_HEIGHT_CMP = tx "Gt") /\
+  (forall k, cmp_eval NAV_UP_GUARD_OP (Z.of_nat k) NAV_UP_GUARD_K = Some true <-> k = 0) /\
+  q_up c 0 = None.
+Proof. exact node_counters_agree. Qed.
+Print Assumptions C10_source_counters.
 
 (* non-vacuity: a forest whose siblings carry equal-comparing data (same i_eqc)
    under different identities; the queries distinguish them *)
